@@ -51,6 +51,23 @@ def get_use_tree(
         # Entities an ONLY list makes accessible under their own name
         return {name for name in use_list if renames.get(name, name) == name}
 
+    def set_rename(use_mod: Use | Import, local_name: str, new_rename: str) -> bool:
+        # Two USE paths may map one local name to different names of a module,
+        # the one that names an entity of the module wins
+        old_rename = use_mod.rename_map.get(local_name)
+        if old_rename == new_rename:
+            return False
+        if old_rename is not None and use_mod.mod_name in obj_tree:
+            members = set()
+            for child in obj_tree[use_mod.mod_name][0].children:
+                members.add(child.name.lower())
+                if child.name.startswith("#GEN_INT"):
+                    members.update(c.name.lower() for c in child.children)
+            if old_rename in members:
+                return False
+        use_mod.rename_map[local_name] = new_rename
+        return True
+
     # Detect and break circular references
     if scope.FQSN in curr_path:
         return use_dict
@@ -94,9 +111,28 @@ def get_use_tree(
                     )
                     if merged_use_list:
                         merged_use_list.add(local_name)
+                    # Renamed away, not available under its own name
+                    if mod_name not in rename_map:
+                        merged_use_list.discard(mod_name)
+                        merged_rename.pop(mod_name, None)
         elif len(use_stmnt.only_list) == 0:
             merged_use_list = only_list.copy()
             merged_rename = rename_map.copy()
+            # The statement may rename what it brings in (USE mod, a => b)
+            if use_stmnt.rename_map:
+                merged_use_list = []
+                for val1 in only_list:
+                    mapped1 = rename_map.get(val1, val1)
+                    new_rename = use_stmnt.rename_map.get(mapped1)
+                    if new_rename is not None:
+                        merged_rename[val1] = new_rename
+                    elif mapped1 in use_stmnt.rename_map.values():
+                        # Renamed away, not available under this name
+                        merged_rename.pop(val1, None)
+                        continue
+                    merged_use_list.append(val1)
+                if len(merged_use_list) == 0:
+                    continue
         else:
             merged_use_list, merged_rename = intersect_only(use_stmnt)
             if len(merged_use_list) == 0:
@@ -119,11 +155,9 @@ def get_use_tree(
                         changed = True
                     # Keep the renames collected from the other USE statements
                     new_rename = merged_rename.get(only_name)
-                    if (
-                        new_rename is not None
-                        and use_dict_mod.rename_map.get(only_name) != new_rename
+                    if new_rename is not None and set_rename(
+                        use_dict_mod, only_name, new_rename
                     ):
-                        use_dict_mod.rename_map[only_name] = new_rename
                         changed = True
             elif old_len > 0:
                 # The whole module is visible now, local names stay valid
@@ -138,8 +172,7 @@ def get_use_tree(
             else:
                 # The whole module is visible already, local names are added
                 for only_name, new_rename in merged_rename.items():
-                    if use_dict_mod.rename_map.get(only_name) != new_rename:
-                        use_dict_mod.rename_map[only_name] = new_rename
+                    if set_rename(use_dict_mod, only_name, new_rename):
                         changed = True
                 # A name stays hidden only if no USE statement provides it
                 if merged_use_list:
